@@ -83,3 +83,45 @@ def tok(x):
     if abs(x - r) > 1e-6:
         return "frac:%r" % x
     return int(r)
+
+
+class P(Synapse):
+    """state P_s := presynaptic voltage (of the previous time point); current -P_w * P_s nA"""
+
+    def __init__(self, name=None):
+        super().__init__(name)
+        self.synapse_params = {"P_w": 1.0}
+        self.synapse_states = {"P_s": 0.0}
+
+    def update_states(self, states, delta_t, pre_voltage, post_voltage, params):
+        return {"P_s": pre_voltage + 0.0 * states["P_s"]}
+
+    def compute_current(self, states, pre_voltage, post_voltage, params):
+        return -params["P_w"] * states["P_s"] + 0.0 * post_voltage
+
+
+class Q(Synapse):
+    """state Q_s counts steps; current -Q_w * Q_s nA"""
+
+    def __init__(self, name=None):
+        super().__init__(name)
+        self.synapse_params = {"Q_w": 1.0}
+        self.synapse_states = {"Q_s": 0.0}
+
+    def update_states(self, states, delta_t, pre_voltage, post_voltage, params):
+        return {"Q_s": states["Q_s"] + 1.0}
+
+    def compute_current(self, states, pre_voltage, post_voltage, params):
+        return -params["Q_w"] * states["Q_s"] + 0.0 * post_voltage
+
+
+SYN = {"P": P, "Q": Q}
+
+
+def build_net(shapes, K):
+    comp = jx.Compartment()
+    cells = [jx.Cell([jx.Branch(comp, ncomp=int(k)) for k in shape], parents=[-1] + [0] * (len(shape) - 1)) for shape in shapes]
+    net = jx.Network(cells)
+    capacitor_geometry(net, K)
+    net.set("v", np.arange(len(net.nodes)) + 1.0)
+    return net
